@@ -13,7 +13,7 @@ import (
 // C10bitvec: what ReceiveBitvec(2) stores is what SendBitvec(2) was given, word for word, for every length.
 func C10bitvec(p *load.Program, run *report.Run) {
 	canonFor(p)
-	run.Rule("bitvec-transport", "interpreting SendBitvec/SendBitvec2 on vectors of symbolic words and feeding the labels they send to ReceiveBitvec/ReceiveBitvec2, the received vectors equal the sent ones position by position, for lengths 0..5 (odd lengths use half a label)")
+	run.Rule("bitvec-transport", fmt.Sprintf("interpreting SendBitvec/SendBitvec2 on vectors of symbolic words and feeding the labels they send to ReceiveBitvec/ReceiveBitvec2, the received vectors equal the sent ones position by position, for lengths 0..%d (odd lengths use half a label)", bound(5, 11)))
 	pkg := p.ByPath[load.Module+"/gmw"]
 	if pkg == nil {
 		return
@@ -41,7 +41,7 @@ func C10bitvec(p *load.Program, run *report.Run) {
 		sp, rp := params(fs), params(fr)
 		bad := ""
 		run.Count("bitvec-lengths", 6)
-		for n := 0; n <= 5 && bad == ""; n++ {
+		for n := 0; n <= bound(5, 11) && bad == ""; n++ {
 			var labels []msg
 			var count int64 = -1
 			ws := &wInterp{pkg: pkg}
@@ -130,7 +130,7 @@ func C10bitvec(p *load.Program, run *report.Run) {
 		if bad != "" {
 			run.Violate("bitvec-transport", key, p.Rel(fs.Pos()), bad, nil)
 		} else {
-			run.OK("bitvec-transport", key, p.Rel(fs.Pos()), "lengths 0..5")
+			run.OK("bitvec-transport", key, p.Rel(fs.Pos()), fmt.Sprintf("lengths 0..%d", bound(5, 11)))
 		}
 	}
 	run.Floor("bitvec-lengths", 12)
